@@ -2,6 +2,7 @@ package demuxrules
 
 import (
 	"fmt"
+	"sort"
 	"strings"
 
 	"golang.org/x/tools/go/ssa"
@@ -602,21 +603,38 @@ func (a *A) parserFirst() *ssa.Call {
 		a.R.Unknown(rule, "parseData/used-as-value/"+bare(o.Parent()), a.ipos(o), "parseData is used as a function value")
 	}
 	{
+		// one parseData call per group source: the group handed to parseData is the direct result of an addUnlocked/dumpUnlocked call
+		// of the same function (checked per site below), and no such call feeds two parseData sites. Where the sites live — NextData
+		// itself or a helper its drain loop has been moved into — does not matter.
 		var bad []string
-		if len(sites2) != 2 {
-			bad = append(bad, fmt.Sprintf("%d call sites of parseData (expected 2: after addUnlocked and in the EOF drain)", len(sites2)))
-		}
+		perSrc := map[ssa.Value][]string{}
+		kinds := map[string]bool{}
 		for _, s := range sites2 {
-			if s.Fn != nd {
-				bad = append(bad, "parseData is called from "+short(s.Fn))
+			if len(s.In.Common().Args) == 0 {
+				continue
+			}
+			arg := s.In.Common().Args[0]
+			perSrc[arg] = append(perSrc[arg], a.ipos(s.In))
+			if g := callOf(arg); g != nil && g.Call.StaticCallee() != nil {
+				kinds[g.Call.StaticCallee().Name()] = true
 			}
 		}
-		a.R.Check(len(bad) == 0, rule, "parseData/two-call-sites-in-NextData", a.fpos(pd), "parseData has exactly two call sites, both in (*Demuxer).NextData", strings.Join(bad, "; "))
+		for v, at := range perSrc {
+			if len(at) > 1 {
+				sort.Strings(at)
+				bad = append(bad, fmt.Sprintf("the group %s is passed to parseData at %d sites (%s): the custom parser sees it more than once", v.Name(), len(at), strings.Join(at, ", ")))
+			}
+		}
+		for _, k := range []string{"addUnlocked", "dumpUnlocked"} {
+			if !kinds[k] {
+				bad = append(bad, "no parseData call site takes the result of "+k)
+			}
+		}
+		sort.Strings(bad)
+		a.R.Check(len(bad) == 0, rule, "parseData/one-call-site-per-group-source", a.fpos(pd), fmt.Sprintf("parseData has %d call sites, each fed by its own addUnlocked/dumpUnlocked call, both kinds present", len(sites2)), strings.Join(bad, "; "))
 	}
 	for _, s := range sites2 {
-		if s.Fn != nd {
-			continue
-		}
+		nd := s.Fn
 		arg := s.In.Common().Args[0]
 		g := callOf(arg)
 		src := "unknown-source"
